@@ -32,6 +32,9 @@ type Edit struct {
 	Byte byte   `json:"byte,omitempty"`
 	Name string `json:"name,omitempty"`
 	Data []byte `json:"data,omitempty"`
+	// Rehash (sum-del-line / sum-dup-line / sum-swap-lines): the header line is recomputed over the edited lines, so the
+	// sum file is consistent in itself and only disagrees with the directory
+	Rehash bool `json:"rehash,omitempty"`
 }
 
 type Case struct {
@@ -202,7 +205,31 @@ func applyDirEdit(files []File, e Edit) ([]File, error) {
 }
 
 // applySumEdit edits the sum text; every kind generated changes the file's meaning (must be detected).
+// rehash recomputes the header line of a sum file from its file lines (name and hash back to back, as documented).
+func rehash(sum string) string {
+	lines := strings.SplitAfter(sum, "\n")
+	all := sha256.New()
+	for _, l := range lines[1:] {
+		l = strings.TrimSuffix(l, "\n")
+		i := strings.LastIndex(l, " h1:")
+		if i == -1 {
+			continue
+		}
+		all.Write([]byte(l[:i]))
+		all.Write([]byte(l[i+4:]))
+	}
+	return "h1:" + base64.StdEncoding.EncodeToString(all.Sum(nil)) + "\n" + strings.Join(lines[1:], "")
+}
+
 func applySumEdit(sum string, e Edit) (string, bool) {
+	if e.Rehash {
+		e.Rehash = false
+		s, ok := applySumEdit(sum, e)
+		if !ok {
+			return "", false
+		}
+		return rehash(s), true
+	}
 	lines := strings.SplitAfter(sum, "\n")
 	if lines[len(lines)-1] == "" {
 		lines = lines[:len(lines)-1]
@@ -408,8 +435,17 @@ func checkCase(c Case) (Outcome, error) {
 	default:
 		out.MustFail = !reflect.DeepEqual(protected(files), protected(c.Files))
 	}
-	err = migrate.Validate(r.dir)
+	err = func() (err error) {
+		defer func() {
+			if p := recover(); p != nil {
+				err = fmt.Errorf("PANIC in migrate.Validate: %v", p)
+			}
+		}()
+		return migrate.Validate(r.dir)
+	}()
 	switch {
+	case err != nil && strings.HasPrefix(err.Error(), "PANIC"):
+		return out, fmt.Errorf("%v after %s\n files: %s", err, edits(c.Edits), describe(files))
 	case out.MustFail && err == nil:
 		return out, fmt.Errorf("tampering not detected: Validate returned nil after %s\n files before: %s\n files after:  %s", edits(c.Edits), describe(c.Files), describe(files))
 	case out.MustFail && !isChecksumErr(err):
